@@ -13,4 +13,8 @@ def foldWithoutGet : Bool := true
 /-- the stream<->value convert pairs registered for START's output and END's input hold functions
     (an interrupt in the Stream paradigm converts channel contents written by START) -/
 def checkpointStartEndPairsSet : Bool := true
+/-- eager mode: the interrupt site after `tm.waitAll()` hands the drained tasks to the handler and saves
+    the tasks already computed as pending inputs (2 = `DrainSave.pending`, fixes/C05-eager-drain-pending.diff;
+    the shipped code has 0 = `refold`, the recorded finding) -/
+def eagerDrainSave : Nat := 2
 end EinoV.Expected.C05
